@@ -71,7 +71,15 @@ def build_harness(work):
     except OSError:
         pass
     out = work.path("vdrive")
-    p = subprocess.run(["go", "build", "-tags", "verif", "-o", out, "./cmd/vdrive"], cwd=HARNESS, env=GOENV,
+    cmd = ["go", "build", "-tags", "verif", "-o", out]
+    if REPO != "/repo":
+        # a developer convenience (VERIF_REPO=<snapshot>): build against another copy of the repository
+        mf = work.path("go.mod")
+        open(mf, "w").write(open(os.path.join(HARNESS, "go.mod")).read().replace("=> /repo", "=> " + REPO))
+        shutil.copy(os.path.join(REPO, "go.sum"), work.path("go.sum"))
+        cmd += ["-modfile", mf]
+    cmd.append("./cmd/vdrive")
+    p = subprocess.run(cmd, cwd=HARNESS, env=GOENV,
                        stdout=subprocess.PIPE, stderr=subprocess.STDOUT, text=True)
     if p.returncode != 0:
         raise Inconclusive("harness build failed:\n" + p.stdout[-3000:])
